@@ -12,7 +12,7 @@ import sys
 import time
 
 ROOT = os.path.dirname(os.path.dirname(os.path.abspath(__file__)))
-WT = "/tmp/wt-verify"
+WT = os.environ.get("SEED_WT", "/tmp/wt-verify")
 ENV = dict(os.environ, CARGO_NET_OFFLINE="true")
 
 
